@@ -115,6 +115,8 @@ def run(case, j):
         m0 = m if pr.random() < 0.6 else int(pr.integers(1, 12))
         X0 = pr.normal(size=(n0, m0)) * 10.0 ** pr.uniform(-2, 2, size=m0) + pr.normal(size=m0) * 10.0 ** pr.uniform(-1, 2)
         w0 = pr.uniform(0.05, 3.0, size=n0) if pr.random() < 0.8 else None
+        if X0.shape == X.shape:
+            X0 = forms.sibling_or(X, (X0 - X0.mean(axis=0)) / np.where(X0.std(axis=0) > 0, X0.std(axis=0), 1.0), 1.0) if n0 > 1 else X0  # every other time a sibling of X: same shape, column means and norms
         j.lib("fit:decoy" + label, e.fit, X0, sample_weight=w0)
         j.lib("transform:decoy" + label, e.transform, X0[:1])
         j.lib("set_params", e.set_params, **{"atol": 1e-12, "rtol": 0.0, **kw, **more})
